@@ -65,6 +65,7 @@ type SeedCfg struct {
 	TickMs      int     `json:"tickms"`
 	ReadDelayUs int     `json:"readdelayus"`
 	UploadKBps  int64   `json:"uploadkbps"`
+	Dir         string  `json:"dir,omitempty"` // scratch directory of the child (created and removed by the parent)
 	Dummy       float64 `json:"-"`
 }
 
@@ -107,10 +108,14 @@ func seedMain(js string) {
 		os.Exit(3)
 	}
 	torrent.DisableLogging()
-	dir, err := os.MkdirTemp("/var/tmp", "c03seed")
-	if err != nil {
-		fmt.Fprintln(os.Stderr, err)
-		os.Exit(3)
+	dir := sc.Dir
+	if dir == "" {
+		var err error
+		dir, err = os.MkdirTemp("/var/tmp", "c03seed")
+		if err != nil {
+			fmt.Fprintln(os.Stderr, err)
+			os.Exit(3)
+		}
 	}
 	cleanup := func() { os.RemoveAll(dir) }
 	fail := func(a ...any) {
@@ -761,8 +766,16 @@ func crashInfo(stderr string) (string, string) {
 
 // runScenario starts the child, runs the leechers, returns the events (Init first).
 func runScenario(s *scen, self string) error {
-	js, _ := json.Marshal(s.sc)
-	cmd := exec.Command(self, "seed", string(js))
+	dir, err := os.MkdirTemp("/var/tmp", "c03seed")
+	if err != nil {
+		return err
+	}
+	defer os.RemoveAll(dir) // also after a crash or a kill of the child
+	js, _ := json.Marshal(s.sc) // the recorded configuration (replay) does not contain the scratch directory
+	withDir := s.sc
+	withDir.Dir = dir
+	jsDir, _ := json.Marshal(withDir)
+	cmd := exec.Command(self, "seed", string(jsDir))
 	stdin, _ := cmd.StdinPipe()
 	stdout, _ := cmd.StdoutPipe()
 	var stderr bytes.Buffer
